@@ -424,9 +424,45 @@ func genCheckSchema(r *Rng, o *Out) *jsonapi.Schema {
 	return s
 }
 
+// collidingCheckSchema: two relationships of different types whose (type, name) pairs read
+// the same once joined ("a_b"+"c" / "a"+"b_c", "ab"+"c" / "a"+"bc"), both naming the same
+// inverse of the same target; the target reciprocates one of them, both, or none. The types
+// are listed in a random order.
+func collidingCheckSchema(r *Rng, o *Out) *jsonapi.Schema {
+	pairs := [][2][2]string{{{"a_b", "c"}, {"a", "b_c"}}, {{"ab", "c"}, {"a", "bc"}}, {{"a_", "b"}, {"a", "_b"}}}
+	p := pairs[r.IntN(len(pairs))]
+	if r.bool() {
+		p[0], p[1] = p[1], p[0]
+	}
+	toOne := r.bool()
+	mk := func(from [2]string) jsonapi.Type {
+		t := jsonapi.Type{Name: from[0], Attrs: map[string]jsonapi.Attr{}, Rels: map[string]jsonapi.Rel{}}
+		t.Rels[from[1]] = jsonapi.Rel{FromType: from[0], FromName: from[1], ToOne: toOne, ToType: "d", ToName: "e"}
+		return t
+	}
+	d := jsonapi.Type{Name: "d", Attrs: map[string]jsonapi.Attr{}, Rels: map[string]jsonapi.Rel{}}
+	switch r.IntN(4) {
+	case 0, 1: // reciprocates the first only
+		d.Rels["e"] = jsonapi.Rel{FromType: "d", FromName: "e", ToType: p[0][0], ToName: p[0][1], FromOne: toOne}
+	case 2: // reciprocates neither
+	case 3: // points at a type that is not there
+		d.Rels["e"] = jsonapi.Rel{FromType: "d", FromName: "e", ToType: "zz", ToName: p[0][1], FromOne: toOne}
+	}
+	types := []jsonapi.Type{mk(p[0]), mk(p[1]), d}
+	s := &jsonapi.Schema{}
+	for _, i := range r.Perm(3) {
+		putType(s, types[i])
+	}
+	o.stat("check.colliding-names")
+	return s
+}
+
 func suiteSchema15(r *Rng, n int, thorough bool, o *Out) {
 	for c := 0; c < n; c++ {
 		s := genCheckSchema(r, o)
+		if r.chance(1, 8) {
+			s = collidingCheckSchema(r, o)
+		}
 		before := sxSchema(s)
 		nOff := 0
 		for _, t := range s.Types {
@@ -539,10 +575,15 @@ func suiteSchema16(r *Rng, n int, thorough bool, o *Out) {
 			}
 			o.stat("rels.collidingpair")
 		}
-		build := func(typeOrder []int, opOrder []int) *jsonapi.Schema {
+		// probe: the relationships are also listed while the schema is being built (after
+		// the types and after every edit); a listing must never depend on an earlier one
+		build := func(typeOrder []int, opOrder []int, probe bool) *jsonapi.Schema {
 			s := &jsonapi.Schema{}
 			for _, i := range typeOrder {
 				_ = s.AddType(jsonapi.Type{Name: names[i]})
+			}
+			if probe {
+				_ = s.Rels()
 			}
 			// the set of relationships must not depend on the order: apply ops
 			// in the same order (an op can fail because of an earlier one), but
@@ -552,6 +593,9 @@ func suiteSchema16(r *Rng, n int, thorough bool, o *Out) {
 					_ = s.AddTwoWayRel(ops[i].rel)
 				} else {
 					_ = s.AddRel(ops[i].rel.FromType, ops[i].rel)
+				}
+				if probe {
+					_ = s.Rels()
 				}
 			}
 			return s
@@ -564,9 +608,13 @@ func suiteSchema16(r *Rng, n int, thorough bool, o *Out) {
 		for i := range opOrd {
 			opOrd[i] = i
 		}
-		s1 := build(ord, opOrd)
+		probe := r.bool()
+		if probe {
+			o.stat("rels.listed-while-building")
+		}
+		s1 := build(ord, opOrd, probe)
 		perm := r.Perm(nt)
-		s2 := build(perm, opOrd)
+		s2 := build(perm, opOrd, false)
 		rels1 := s1.Rels()
 		rels2 := s2.Rels()
 		pv := "ok"
